@@ -66,6 +66,16 @@ def r_op(o):
         return "OpDecrypt %s" % KT[o["kt"]]
     if k == "convert":
         return "OpConvert"
+    if k == "markused":
+        return "OpMarkUsed %s %s" % (sc, r_key(o.get("a")))
+    if k == "foreach":
+        return "OpForEach %s %s" % (sc, cN(g("acct")))
+    if k == "invalidate":
+        return "OpInvalidate %s %s" % (sc, cN(g("acct")))
+    if k == "hprivkey":
+        return "OpHeldPrivKey %s %s" % (cbool(o.get("enc", False)), cbool(o.get("ct", False)))
+    if k == "hscript":
+        return "OpHeldScript %s %s %s" % (KIND[o["kind"]], cbool(o.get("sec", False)), cbool(o.get("ct", False)))
     raise ValueError(k)
 
 
@@ -117,7 +127,12 @@ class C05(Check):
             "and unlocked, right and wrong old passphrase), restart (Open with right / wrong public passphrase), NewAccount, "
             "NewAccountWatchingOnly, AccountProperties, Next{External,Internal}Addresses, ImportPrivateKey (also duplicates), "
             "ImportScript / ImportWitnessScript (secret and public) / ImportTaprootScript, Address, PrivKey, Script, "
-            "DeriveFromKeyPath, DeriveFromKeyPathCache, ConvertToWatchingOnly.  After every main operation (probe policy all: every, "
+            "DeriveFromKeyPath, DeriveFromKeyPathCache, ConvertToWatchingOnly, MarkUsed (evicts the address object from the cache), "
+            "ForEachAccountAddress, InvalidateAccountCache.  The harness KEEPS the address objects it is handed (results of "
+            "Next*Addresses, DeriveFromKeyPath, Address, ForEachAccountAddress, imports; up to 40, dropped at a restart) and, after "
+            "every main operation that leaves the manager locked or watching-only, calls PrivKey+ExportPrivKey / Script(+TaprootScript) "
+            "on every kept object (its privKeyEncrypted / clear-text fields read by reflection are inputs of the model's accessor), "
+            "tracked by the manager or not.  After every main operation (probe policy all: every, "
             "some: a third, none) EVERY known address / script / account is probed: PrivKey+ExportPrivKey, Script(+TaprootScript), "
             "DeriveFromKeyPath+PrivKey, DeriveFromKeyPathCache, Encrypt/Decrypt for the three key types, and while locked or "
             "watching-only NewAccount, ImportPrivateKey, ImportScript(secret).  IsLocked, WatchOnly and the liveness of every "
@@ -133,13 +148,19 @@ class C05(Check):
         "that key only; passphrases are abstract ids.  C17's known finding (passphrases with the same HMAC key block: trailing "
         "NULs, > 64 bytes) is outside this model: the harness uses passphrases of at most 64 bytes without trailing NULs",
         "every database transaction commits iff the operation returned nil (memory ahead of disk after an aborted transaction is "
-        "C08/C10's subject); no BIP32 child is invalid; ExtendAddresses (S3), NewScopedKeyManager, InvalidateAccountCache and the "
-        "imported pseudo-account as a derivation source are not among the operations",
+        "C08/C10's subject); no BIP32 child is invalid; ExtendAddresses (S3), NewScopedKeyManager and the imported pseudo-account "
+        "as a derivation source are not among the operations",
+        "address objects kept by a caller are not part of the model's state: the accessors on them (OpHeldPrivKey / OpHeldScript) "
+        "take the object's fields as input (observed by reflection) and are called by the harness only while the manager is locked "
+        "or watching-only, where they return before touching anything; the theorem quantifies over ALL field values.  Observation, "
+        "not an oracle kind: objects the manager no longer tracks (DeriveFromKeyPath / ForEachAccountAddress results, addresses "
+        "evicted by MarkUsed) keep their clear text after Lock - the manager cannot reach them (counted in input_distribution "
+        "under observation:untracked_kept_object_holds_cleartext_while_locked:*)",
         "clear-text buffers are the ones named by the hook plus accountInfo.last{External,Internal}Addr; copies handed to callers "
         "(returned keys, objects returned by DeriveFromKeyPath) and garbage not yet collected are outside any model",
         "ImportPrivateKey on a watching-only manager is documented to store the public key only; the theorem states exactly that "
         "(no encrypted private key is stored, every later private accessor on the address fails with a watching-only error)",
-        "the six booleans of Generated/LockFacts.v are extracted syntactically (go/ast) from waddrmgr/*.go on every run; the "
+        "the nine booleans of Generated/LockFacts.v are extracted syntactically (go/ast) from waddrmgr/*.go on every run; the "
         "theorems take them as `= true` premises discharged by eq_refl in Properties/C05.v",
     ]
     PARTIAL_CLAUSES = [
